@@ -128,3 +128,59 @@ def lock_withs(model, func):
 
 def unparse_target(t):
     return norm(t)
+
+
+def real_body(fn_node):
+    """Statements of a def without docstrings / constant-expression no-ops."""
+    return [s for s in fn_node.body if not (isinstance(s, ast.Expr) and isinstance(s.value, ast.Constant))]
+
+
+class _Canon(ast.NodeTransformer):
+    def __init__(self, keep):
+        self.keep = keep
+        self.map = {}
+
+    def visit_Name(self, node):
+        if node.id in self.keep:
+            return node
+        if node.id not in self.map:
+            self.map[node.id] = f"_{len(self.map) + 1}"
+        return ast.copy_location(ast.Name(id=self.map[node.id], ctx=node.ctx), node)
+
+    def visit_ExceptHandler(self, node):
+        self.generic_visit(node)
+        if node.name and node.name not in self.keep:
+            if node.name not in self.map:
+                self.map[node.name] = f"_{len(self.map) + 1}"
+            node.name = self.map[node.name]
+        return node
+
+
+def canon(nodes, keep):
+    """Alpha-normalised text of a list of AST nodes (or source strings): every Name not in `keep` is replaced by
+    _1, _2, ... in order of first occurrence, so renaming local variables does not change the result."""
+    import copy
+    c = _Canon(set(keep))
+    out = []
+    for n in nodes:
+        if isinstance(n, str):
+            n = ast.parse(n).body[0]
+            if isinstance(n, ast.Expr):
+                n = n.value
+        n = c.visit(copy.deepcopy(n))
+        out.append(" ".join(ast.unparse(n).split()))
+    return out
+
+
+def global_names(model, func):
+    """Names that are not local to `func` or its enclosing functions: parameters, module globals, builtins stay fixed
+    under alpha-renaming of locals."""
+    keep = set()
+    f = func
+    while f is not None:
+        keep |= set(f.params)
+        f = f.parent
+    keep |= set(func.module.bindings.keys())
+    import builtins
+    keep |= set(dir(builtins))
+    return keep
